@@ -15,7 +15,13 @@ META = dict(
                 'buffer/iterator-level model equals the functional one; an alias is selected only on a whole-component prefix; with '
                 'check_symlink off the opened path is root ++ safe path; with check_symlink on (realpath contract as hypothesis) the '
                 'opened path has the canonical root as a component-wise prefix; every path handed to open/opendir by main comes from '
-                'check_in_document_root; listings only when enabled, no dot names, names escaped/urlencoded. The model is tied to the '
+                'check_in_document_root; listings only when enabled, no dot names, names escaped/urlencoded; the markup skeleton of the '
+                'listing page (bytes < > quotes, in order) is fixed by the page grammar whatever the names and the request path; href and '
+                'text of a row tokenize back and decode to the entry name; for every request target the redirect Location is the '
+                'percent-encoded normal form of the request path: only unreserved bytes, percent signs and slashes (one header line), '
+                'on this site, leading back to the same directory; percent-encoding is transparent and undone exactly once before normalisation; in the name-space '
+                'model (every finite symlink graph, 40-link limit) realpath is idempotent and every served file is its own real path '
+                'under the real path of the root in force. The model is tied to the '
                 'source by running normalize_path exhaustively on all strings of length <= 8 over {a . /} and by replaying generated '
                 'request targets against real services (8 configurations) over a sandbox with symlinks, aliases and marker files.'),
     level_note=('Trusted: Coq kernel + vm_compute; extraction; the hand model of the C++ (tied by correspondence, not by translation, '
@@ -59,6 +65,25 @@ TREE = [
     ('l', b'ali1/lback', b'../root'), ('l', b'ali1/lout', b'../out'), ('d', b'ali1/noidx'), ('f', b'ali1/noidx/n.txt'),
     ('d', b'ali2'), ('f', b'ali2/z.txt'), ('f', b'ali2/index.html'), ('d', b'ali2/sub2'), ('f', b'ali2/sub2/y.txt'),
     ('l', b'lnk_ali2', b'ali2'), ('l', b'lroot', b'root'),
+    # names that are markup, URL syntax, escapes of themselves, control bytes, ill-formed UTF-8 (listing rows, hrefs, redirects)
+    ('d', b'root/m'), ('f', b'root/m/100%.txt'), ('f', b'root/m/%2e%2e'), ('f', b'root/m/a%2fb'), ('f', b'root/m/nl\nx.txt'),
+    ('f', b'root/m/cr\rlf\n.txt'), ('f', b"root/m/q'uote"), ('f', b'root/m/dq"uote'), ('f', b'root/m/<script>alert(1)<'),
+    ('f', b'root/m/&amp;'), ('f', b'root/m/&lt;b&gt;'), ('f', b'root/m/tab\there'), ('f', b'root/m/+plus sp'), ('f', b'root/m/\xc3\x28'),
+    ('f', b'root/m/\xe2\x82\xac.txt'), ('f', b'root/m/~t-_.'), ('f', b'root/m/#h?q=1'), ('f', b'root/m/\x01\x7f'),
+    ('f', b"root/m/'><a href='y"), ('f', b'root/m/back\\slash'), ('f', b'root/m/.<dot>'), ('f', b'root/m/<tr><td>'),
+    ('d', b"root/m/<d>'&"), ('f', b"root/m/<d>'&/in<.txt"), ('d', b'root/m/...'), ('f', b'root/m/.../x.txt'), ('l', b'root/m/l<nk', b'100%.txt'),
+    ('d', b'root/m/%2f'), ('f', b'root/m/%2f/x.txt'), ('d', b'root/m/?d'), ('f', b'root/m/?d/index.html'), ('d', b'root/m/\r\nX-I: 1'),
+    ('d', b'root/m/ sp'), ('l', b'root/m/.l>', b'100%.txt'), ('l', b'root/m/ld"', b'../d'),
+    # symbolic-link chains: k/c00 -> c01 -> ... -> c41 -> ../f.txt (42 links; Linux and glibc follow at most 40 per resolution),
+    # kd/c00 -> ... -> c41 -> ../d (to a directory), a link to a directory written with a trailing slash, a link through an
+    # alias target, a dangling chain, a chain that leaves the root at its very end
+    ('d', b'root/k'), ('d', b'root/kd'), ('d', b'root/ko'),
+] + [('l', b'root/k/c%02d' % i, b'c%02d' % (i + 1) if i < 41 else b'../f.txt') for i in range(42)] + [
+    ('l', b'root/kd/c%02d' % i, b'c%02d' % (i + 1) if i < 41 else b'../d') for i in range(42)] + [
+    ('l', b'root/ko/c%02d' % i, b'c%02d' % (i + 1) if i < 5 else b'../../out/OUTSIDE_secret.txt') for i in range(6)] + [
+    ('l', b'root/ldslash', b'a/b/'), ('l', b'root/lfslash', b'f.txt/'), ('l', b'root/k/dang0', b'dang1'), ('l', b'root/k/dang1', b'nowhere'),
+    ('l', b'ali1/lchain', b'../root/k/c30'), ('l', b'ali1/lin2', b'sub/'), ('l', b'root/k/abs', b'@B@/root/k/c10'),
+    ('l', b'root/k/updown', b'../k/../kd/c35/sub'),
 ]
 
 A0 = []
@@ -314,6 +339,79 @@ def gen_cases(ctx):
         mode = rng.choice([0, 1, 2])
         raw = b'/' + b'/'.join(enc_seg(s, rng, mode) for s in l)
         cases.append('rq %d %s' % (k, hexs(raw)))
+    # --- listing pages and names made of markup / URL syntax / control bytes / ill-formed UTF-8
+    dirs, mnodes = [], []
+    for ent in TREE:
+        rel = ent[1].split(b'/')
+        if rel[0] == b'root' and ent[0] == 'd':
+            dirs.append(rel[1:])
+        elif rel[0] == b'ali1' and ent[0] == 'd':
+            dirs.append([b'al'] + rel[1:])
+        elif rel[0] == b'ali2' and ent[0] == 'd':
+            dirs.append([b'al', b'sub'] + rel[1:])
+        if rel[:2] == [b'root', b'm'] and len(rel) > 2:
+            mnodes.append(rel[1:])
+    for k in range(ncfg):
+        for d in dirs:
+            for mode in (0, 1, 2):
+                if ctx.quick() and mode == 2 and rng.random() < 0.5:
+                    continue
+                raw = b'/' + b'/'.join(enc_seg(x, rng, mode) for x in d)
+                cases.append('rq %d %s' % (k, hexs(raw + (b'/' if d else b''))))
+                if d and (mode == 0 or rng.random() < 0.4):
+                    cases.append('rq %d %s' % (k, hexs(raw)))
+        for nd in mnodes:
+            for mode in (0, 1, 2):
+                cases.append('rq %d %s' % (k, hexs(b'/' + b'/'.join(enc_seg(x, rng, mode) for x in nd))))
+    # --- the directory redirect: decoded paths that differ from their normal form, separators and line ends inside them
+    inj = [b'\r\nSet-Cookie: x=1', b'\r\n\r\n<html>', b'\n', b'\r', b'"\'<b>', b'?q', b'#f', b'%', b'%2e%2e', b'+', b' ', b'\x80\xff', b'\\', b'zz']
+    for _ in range(ctx.scale(700, 8000)):
+        k = rng.randrange(ncfg)
+        d = list(rng.choice(dirs))
+        r = rng.random()
+        if r < 0.3:      # <dir>/<junk>/..
+            l = d + [rng.choice(inj), b'..']
+            raw = b'/' + b'/'.join(enc_seg(x, rng, rng.choice([0, 1, 2])) for x in l)
+        elif r < 0.55:   # network-path shapes: //host/.., /%2fhost/.., /\host/..
+            host = rng.choice([b'evil.example', b'host', b'a', b'[::1]', b'@h'])
+            pre = rng.choice([b'//', b'/%2f', b'/%2F', b'/%5c', b'/\\', b'///', b'/.//', b'/%2f%2f'])
+            tail = b''.join(b'/' + enc_seg(x, rng, 0) for x in d)
+            raw = pre + host + rng.choice([b'/..', b'/%2e%2e', b'%2f..', b'%2f%2e%2e']) + tail
+        elif r < 0.8:    # un-normalised but harmless
+            l = []
+            for x in d:
+                l += rng.choice([[x], [x], [b'.', x], [x, b'zz', b'..'], [b'', x]])
+            raw = b'/' + b'/'.join(enc_seg(x, rng, rng.choice([0, 2])) for x in l)
+            raw += rng.choice([b'', b'', b'/.', b'/zz/..', b'//', b'/./'])
+        else:            # the junk as the last component of an existing directory name? (m holds such directories)
+            l = [b'm', rng.choice([b'?d', b'%2f', b'\r\nX-I: 1', b' sp', b"<d>'&", b'ld"'])]
+            raw = b'/' + b'/'.join(enc_seg(x, rng, rng.choice([0, 1, 2])) for x in l)
+        cases.append('rq %d %s' % (k, hexs(raw)))
+    # --- percent-decoding x normalisation order: exhaustive token strings (the decoded dot / slash / NUL / percent sign, their
+    #     double encodings and the bare hex digits) between a real directory prefix and a real file name
+    toks = [b'/', b'.', b'%2e', b'%2f', b'%25', b'%00', b'a', b'2e', b'2f', b'%252e', b'%5c']
+    for k in (0, 2):                                   # check_symlink on / off (both with the alias /al)
+        for pre in (b'/', b'/a/b/'):
+            for ln in range(1, 5):
+                for t in itertools.product(toks, repeat=ln):
+                    if ln == 4 and ctx.quick() and rng.random() > 0.04:
+                        continue
+                    if ln == 3 and ctx.quick() and rng.random() > 0.5:
+                        continue
+                    mid = b''.join(t)
+                    cases.append('rq %d %s' % (k, hexs(pre + mid + rng.choice([b'', b'/f.txt', b'/a/index.html', b'/out/OUTSIDE_secret.txt']))))
+    # --- symbolic-link chains around the MAXSYMLINKS boundary (40 followed, the 41st is ELOOP), links inside alias targets
+    chain = []
+    for i in (0, 1, 2, 3, 20, 40, 41):
+        chain += [[b'k', b'c%02d' % i], [b'kd', b'c%02d' % i], [b'kd', b'c%02d' % i, b'e.txt'], [b'kd', b'c%02d' % i, b'sub', b'deep.txt'],
+                  [b'kd', b'c%02d' % i, b'']]
+    chain += [[b'ko', b'c%02d' % i] for i in range(6)]
+    chain += [[b'ldslash'], [b'ldslash', b'c.txt'], [b'lfslash'], [b'k', b'dang0'], [b'al', b'lchain'], [b'al', b'lin2'], [b'al', b'lin2', b'b.txt'],
+              [b'k', b'abs'], [b'k', b'updown'], [b'k', b'updown', b'deep.txt'], [b'loop'] * 39 + [b'linf'], [b'loop'] * 40 + [b'linf'],
+              [b'loop'] * 40 + [b'f.txt'], [b'loop'] * 41 + [b'f.txt'], [b'lin', b'..', b'..', b'lin', b'c.txt']]
+    for k in range(ncfg):
+        for l in chain:
+            cases.append('rq %d %s' % (k, hexs(b'/' + b'/'.join(enc_seg(x, rng, 0) for x in l))))
     # long targets (normalisation must bring them back to something short)
     for _ in range(ctx.scale(40, 600)):
         k = rng.randrange(ncfg)
@@ -326,11 +424,191 @@ def gen_cases(ctx):
 
 # ------------------------------------------------------------------------------------------------
 # reply parsing (shared by oracle and canonicalisation)
-ROW_RE = re.compile(rb"<tr><td><code><a href='([^']*)'>(.*?)</a></code></td><td>([^<]*)</td><td>&nbsp;</td><td>(.*?)</td></tr>\n")
+# the page grammar, literal by literal from file_server::list_dir; data holes: TITLE, HREF, TEXT, DATE, SIZE, VERSION
+PG_HEAD = (b'<!DOCTYPE HTML PUBLIC "-//W3C//DTD HTML 4.01 Transitional//EN"\n     "http://www.w3.org/TR/html4/loose.dtd">\n'
+           b'<html><head><title>Directory Listing</title></head>\n<body><h1>Index of ')
+PG_MID = (b"</h1>\n<table>\n<thead><tr><td width='60%'>File</td><td width='20%' >Date</td><td width='5%'>&nbsp;</td>"
+          b"<td width='15%'>Size</td></tr></thead>\n<tbody>\n")
+PG_PARENT = b"<tr><td><code><a href='../' >..</a></code></td><td>&nbsp;</td><td>&nbsp;</td><td>&nbsp;</td></tr>\n"
+PG_ROW0 = b"<tr><td><code><a href='"
+PG_ROW1 = b"'>"
+PG_ROW2 = b"</a></code></td><td>"
+PG_ROW3 = b"</td><td>&nbsp;</td><td>"
+PG_DIRSZ = b" <strong>-</strong> "
+PG_ROW4 = b"</td></tr>\n"
+PG_FOOT0 = b"</tbody>\n</table>\n<p>CppCMS-Embedded/"
+PG_FOOT1 = b"</p>\n</body>\n"
+ENTITIES = {b'&lt;': b'<', b'&gt;': b'>', b'&amp;': b'&', b'&quot;': b'"', b'&#39;': b"'"}
+HREF_OK = set(b'abcdefghijklmnopqrstuvwxyzABCDEFGHIJKLMNOPQRSTUVWXYZ0123456789-_.~')
+HEXD = set(b'0123456789abcdefABCDEF')
+
+
+def read_text(b, i):
+    """character data starting at b[i] up to the next '<': -> (decoded bytes, end index) or None when a raw > " ' occurs or an
+    ampersand does not start one of the five entities util::escape writes (independent of the model: plain scanner)"""
+    out = bytearray()
+    n = len(b)
+    while i < n and b[i] != 0x3c:
+        c = b[i]
+        if c in (0x3e, 0x22, 0x27):
+            return None
+        if c == 0x26:
+            for e, v in ENTITIES.items():
+                if b.startswith(e, i):
+                    out += v
+                    i += len(e)
+                    break
+            else:
+                return None
+            continue
+        out.append(c)
+        i += 1
+    return bytes(out), i
+
+
+def read_href(b, i):
+    """attribute value starting at b[i] up to the closing single quote: only unreserved bytes, slash and well-formed %XX"""
+    out = bytearray()
+    n = len(b)
+    while i < n and b[i] != 0x27:
+        c = b[i]
+        if c == 0x25:
+            if i + 2 < n and b[i + 1] in HEXD and b[i + 2] in HEXD:
+                out.append(int(b[i + 1:i + 3], 16))
+                i += 3
+                continue
+            return None
+        if c not in HREF_OK and c != 0x2f:
+            return None
+        out.append(c)
+        i += 1
+    return bytes(out), i
+
+
+def parse_page(body):
+    """strict recursive-descent reading of a listing page.
+    -> None (not a listing page at all) | ('bad', where) | ('ok', title_raw, title, parent, rows[(href_raw, href, text_raw, text, isdir)], version)"""
+    if not body.startswith(PG_HEAD):
+        return None
+    i = len(PG_HEAD)
+    t = read_text(body, i)
+    if t is None:
+        return ('bad', 'title')
+    title, j = t
+    title_raw = body[i:j]
+    i = j
+    if not body.startswith(PG_MID, i):
+        return ('bad', 'after-title')
+    i += len(PG_MID)
+    parent = False
+    if body.startswith(PG_PARENT, i):
+        parent = True
+        i += len(PG_PARENT)
+    rows = []
+    while body.startswith(PG_ROW0, i):
+        i += len(PG_ROW0)
+        h = read_href(body, i)
+        if h is None:
+            return ('bad', 'href of row %d' % len(rows))
+        href, j = h
+        href_raw = body[i:j]
+        i = j
+        if not body.startswith(PG_ROW1, i):
+            return ('bad', 'href end of row %d' % len(rows))
+        i += len(PG_ROW1)
+        t = read_text(body, i)
+        if t is None:
+            return ('bad', 'text of row %d' % len(rows))
+        text, j = t
+        text_raw = body[i:j]
+        i = j
+        if not body.startswith(PG_ROW2, i):
+            return ('bad', 'after text of row %d' % len(rows))
+        i += len(PG_ROW2)
+        m = re.compile(rb'\d{4}-\d\d-\d\d \d\d:\d\d:\d\d').match(body, i)
+        if not m:
+            return ('bad', 'date of row %d' % len(rows))
+        i = m.end()
+        if not body.startswith(PG_ROW3, i):
+            return ('bad', 'after date of row %d' % len(rows))
+        i += len(PG_ROW3)
+        if body.startswith(PG_DIRSZ, i):
+            isdir = True
+            i += len(PG_DIRSZ)
+        else:
+            m = re.compile(rb'[0-9][0-9,. ]*').match(body, i)
+            if not m:
+                return ('bad', 'size of row %d' % len(rows))
+            isdir = False
+            i = m.end()
+        if not body.startswith(PG_ROW4, i):
+            return ('bad', 'end of row %d' % len(rows))
+        i += len(PG_ROW4)
+        rows.append((href_raw, href, text_raw, text, isdir))
+    if not body.startswith(PG_FOOT0, i):
+        return ('bad', 'after row %d' % len(rows))
+    i += len(PG_FOOT0)
+    j = body.find(b'<', i)
+    if j < 0 or body[j:] != PG_FOOT1 or not re.fullmatch(rb'[0-9A-Za-z.\-]+', body[i:j]):
+        return ('bad', 'footer')
+    return ('ok', title_raw, title, parent, rows, body[i:j])
+
+
+def page_shape(body):
+    """the page with the data that the model does not compute (date, size, version) replaced by fixed tokens and the rows put
+    in byte order (readdir order is not specified) -- used on the implementation's page and on the model's page alike"""
+    i = body.find(PG_MID)
+    if i < 0:
+        return body
+    i += len(PG_MID)
+    j = body.rfind(PG_FOOT0)
+    if j < i:
+        return body
+    mid = body[i:j]
+    par = b''
+    if mid.startswith(PG_PARENT):
+        par = PG_PARENT
+        mid = mid[len(PG_PARENT):]
+    parts = mid.split(PG_ROW4)
+    if parts[-1] != b'':
+        return body
+    rows = []
+    for r in parts[:-1]:
+        r = re.sub(rb'</a></code></td><td>\d{4}-\d\d-\d\d \d\d:\d\d:\d\d</td><td>&nbsp;</td><td>(?: <strong>-</strong> |[0-9][0-9,. ]*)$',
+                   lambda m: b'</a></code></td><td>D</td><td>&nbsp;</td><td>' + (PG_DIRSZ if b'strong' in m.group(0) else b'N'), r)
+        # a socket has S_IFDIR and S_IFREG bits: shown as name/ with a size (harmless quirk); the model page keys the cell on the slash
+        r = re.sub(rb'/</a></code></td><td>D</td><td>&nbsp;</td><td>N$', b'/</a></code></td><td>D</td><td>&nbsp;</td><td>' + PG_DIRSZ, r)
+        rows.append(r + PG_ROW4)
+    foot = re.sub(rb'CppCMS-Embedded/[0-9A-Za-z.\-]+', b'CppCMS-Embedded/V', body[j:])
+    return body[:i] + par + b''.join(sorted(rows)) + foot
+
+
+def raw_location(b):
+    """the bytes the server put after 'Location: ' -- up to the header the HTTP back end always writes next, so that a value that
+    itself contains CR LF is seen whole"""
+    i = b.find(b'\r\nLocation: ')
+    if i < 0:
+        return None
+    i += len(b'\r\nLocation: ')
+    j = b.find(b'\r\nX-Powered-By: CppCMS/', i)
+    if j < 0:
+        j = b.find(b'\r\n', i)
+    return b[i:j] if j >= 0 else b[i:]
+
+
+def reply_bytes(out):
+    o = out.split()
+    if len(o) != 2 or o[0] != 'rq':
+        return None
+    h = o[1][:-2] if o[1].endswith('!T') else o[1]
+    try:
+        return unhex(h)
+    except ValueError:
+        return None
 
 
 def parse_reply(out):
-    """-> dict(status=int, headers={lower: value}, body=bytes, timeout=bool) or None"""
+    """-> dict(status=int, headers={lower: value}, body=bytes, timeout=bool, raw=bytes) or None"""
     o = out.split()
     if len(o) != 2 or o[0] != 'rq':
         return None
@@ -342,41 +620,23 @@ def parse_reply(out):
         b = unhex(h)
     except ValueError:
         return None
-    he = b.find(b'\r\n\r\n')
+    m = re.match(rb'HTTP/1\.[01] (\d{3})', b)
+    st = int(m.group(1)) if m else 0
+    loc = raw_location(b) if st == 302 else None
+    if loc is not None:
+        # the header block ends after the headers the back end appends to the (possibly multi-line) Location value
+        k = b.find(b'\r\nX-Powered-By: CppCMS/')
+        he = b.find(b'\r\n\r\n', k if k >= 0 else 0)
+    else:
+        he = b.find(b'\r\n\r\n')
     if he < 0:
-        return dict(status=0, headers={}, body=b, timeout=to)
+        return dict(status=0, headers={}, body=b, timeout=to, raw=b, location=loc)
     head = b[:he].split(b'\r\n')
-    m = re.match(rb'HTTP/1\.[01] (\d{3})', head[0])
     hd = {}
     for l in head[1:]:
         n, _, v = l.partition(b':')
         hd[n.strip().lower()] = v.strip()
-    return dict(status=int(m.group(1)) if m else 0, headers=hd, body=b[he + 4:], timeout=to)
-
-
-def parse_listing(body):
-    """-> (title_escaped, parent_link, rows[(href, text)], rest_ok) or None"""
-    m = re.match(rb'<!DOCTYPE HTML PUBLIC "-//W3C//DTD HTML 4\.01 Transitional//EN"\n     "http://www\.w3\.org/TR/html4/loose\.dtd">\n'
-                 rb'<html><head><title>Directory Listing</title></head>\n<body><h1>Index of (.*?)</h1>\n<table>\n<thead>.*?</thead>\n<tbody>\n',
-                 body, flags=re.S)
-    if not m:
-        return None
-    title = m.group(1)
-    rest = body[m.end():]
-    parent = False
-    pl = b"<tr><td><code><a href='../' >..</a></code></td><td>&nbsp;</td><td>&nbsp;</td><td>&nbsp;</td></tr>\n"
-    if rest.startswith(pl):
-        parent = True
-        rest = rest[len(pl):]
-    rows = []
-    while True:
-        r = ROW_RE.match(rest)
-        if not r:
-            break
-        rows.append((r.group(1), r.group(2)))
-        rest = rest[r.end():]
-    ok = rest.startswith(b'</tbody>\n</table>\n<p>CppCMS-Embedded/') and rest.endswith(b'</p>\n</body>\n')
-    return title, parent, rows, ok
+    return dict(status=st, headers=hd, body=b[he + 4:], timeout=to, raw=b, location=loc)
 
 
 def canon_case(case, out):
@@ -393,13 +653,10 @@ def canon_case(case, out):
     if st == 404:
         return 'rq 404'
     if st == 302:
-        return 'rq 302 ' + hexs(r['headers'].get(b'location', b''))
+        return 'rq 302 ' + hexs(r['location'] if r['location'] is not None else b'')
     if st == 200:
-        pl = parse_listing(r['body'])
-        if pl is not None:
-            title, parent, rows, ok = pl
-            rs = sorted('%s:%s' % (hexs(h), hexs(t)) for h, t in rows)
-            return 'rq list %s %d %s%s' % (hexs(title), parent, ','.join(rs) if rs else '-', '' if ok else ' MALFORMED')
+        if r['body'].startswith(PG_HEAD):
+            return 'rq list ' + hexs(page_shape(r['body']))
         m = MARK_RE.fullmatch(r['body'].rstrip(b'\n'))
         if m:
             return 'rq file %s %s' % (m.group(1).decode(), hexs(r['headers'].get(b'content-type', b'')))
@@ -412,6 +669,8 @@ def canon_model(line):
     if len(o) == 4 and o[0] == 'rq' and o[1] == 'file':
         ext = unhex(o[3])
         return 'rq file %s %s' % (o[2], hexs(MIME.get(ext, b'application/octet-stream')))
+    if len(o) == 3 and o[0] == 'rq' and o[1] == 'list':
+        return 'rq list ' + hexs(page_shape(unhex(o[2])))
     return line
 
 
@@ -435,6 +694,13 @@ def py_urldecode(b):
     return bytes(out)
 
 
+UNRESERVED = set(b'abcdefghijklmnopqrstuvwxyzABCDEFGHIJKLMNOPQRSTUVWXYZ0123456789-_.~')
+
+
+def py_urlencode(b):
+    return b''.join(bytes([c]) if c in UNRESERVED else b'%%%02x' % c for c in b)
+
+
 def ref_resolve(path):
     st = []
     for comp in path.split(b'/'):
@@ -446,6 +712,15 @@ def ref_resolve(path):
         else:
             st.append(comp)
     return st
+
+
+def dirlike(p):
+    """what file_server::main takes for a directory: st_mode & S_IFDIR (true for directories, and - mode bit quirk, harmless: the
+    listing then fails with 404 - for sockets and block devices)"""
+    try:
+        return (os.stat(p).st_mode & 0o040000) != 0
+    except OSError:
+        return False
 
 
 def inside(real, root):
@@ -528,37 +803,93 @@ def oracle(case, out):
     if st not in (200, 302, 404):
         return ('unexpected-status', 'status %d' % st)
     if st == 200:
-        pl = parse_listing(body)
+        pl = parse_page(body)
         if pl is not None:
-            title, parent, rows, ok = pl
             if not cfg['listing']:
                 return ('listing-when-disabled', 'a directory listing was produced although file_server.listing is off')
-            if not ok:
-                return ('listing-malformed', 'listing HTML does not parse with the strict row grammar (unescaped name?)')
+            if pl[0] == 'bad':
+                where = pl[1]
+                if where.startswith('href'):
+                    return ('listing-href-unencoded', 'an href attribute value of the listing carries a byte that is not unreserved / slash / %XX (' + where + '): a file name reaches the page raw')
+                if where.startswith('text') or where == 'title':
+                    return ('listing-unescaped', 'character data of the listing carries a raw < > quote or a stray ampersand (' + where + '): a name reaches the page unescaped')
+                return ('listing-malformed', 'listing page does not follow the page grammar of list_dir at: ' + where)
+            _, title_raw, title, parent, rows, _ver = pl
             if not os.path.isdir(full) or (cfg['check'] and not inside(real, root)):
                 return ('lists-wrong-directory', 'listing for a request that does not denote a directory inside the root in force')
+            if not ref['malformed'] and title != ref['decoded']:
+                return ('listing-wrong-title', 'the title %r is not the (escaped) request path %r' % (title, ref['decoded']))
             names = set()
-            for href, text in rows:
-                if re.search(rb'[<>"\']', text) or re.search(rb'[^A-Za-z0-9\-_.~%/]', href):
-                    return ('listing-unescaped', 'listing row carries markup characters')
-                nm = html.unescape(text.decode('latin-1')).encode('latin-1').rstrip(b'/')
-                if urllib.parse.unquote_to_bytes(href).rstrip(b'/') != nm:
-                    return ('listing-href-text-differ', 'href and text of a row name different entries')
+            # the server stats <path it opened>/<name>: with check_symlink off that is the lexical path (its links count towards
+            # the 40-links-per-resolution limit of the kernel), with check_symlink on the real path
+            lp = real if cfg['check'] else full.rstrip(b'/')
+            for href_raw, href, text_raw, text, isdir in rows:
+                if href != text:
+                    return ('listing-href-text-differ', 'href %r and text %r of a row name different entries' % (href_raw, text_raw))
+                nm = text[:-1] if text.endswith(b'/') else text
                 if nm.startswith(b'.'):
                     return ('listing-shows-dot-file', 'listing shows %r' % nm)
+                if b'/' in nm or nm == b'':
+                    return ('listing-wrong-entries', 'row %r is not an entry name' % text_raw)
+                obj = lp + b'/' + nm
+                if (os.path.isdir(obj) and not (isdir and text.endswith(b'/'))) or (os.path.isfile(obj) and (isdir or text.endswith(b'/'))):
+                    return ('listing-wrong-kind', 'row %r: directory rows and only they end with a slash and have no size' % text_raw)
                 names.add(nm)
+            if len(names) != len(rows):
+                return ('listing-wrong-entries', 'an entry is listed twice')
             want = set()
             for nm in os.listdir(real):
                 if nm.startswith(b'.'):
                     continue
-                if os.path.isdir(real + b'/' + nm) or os.path.isfile(real + b'/' + nm):
+                if os.path.isdir(lp + b'/' + nm) or os.path.isfile(lp + b'/' + nm):
                     want.add(nm)
             # sockets show up as directories (mode bit quirk, harmless): tolerate
-            extra = set(n for n in names - want if not os.path.exists(real + b'/' + n) or os.path.isdir(real + b'/' + n) or os.path.isfile(real + b'/' + n))
+            extra = set(n for n in names - want if not os.path.exists(lp + b'/' + n) or os.path.isdir(lp + b'/' + n) or os.path.isfile(lp + b'/' + n))
             if extra or (want - names):
                 return ('listing-wrong-entries', 'listing rows %r, directory has %r' % (sorted(names), sorted(want)))
+            if parent != (ref['decoded'] not in (b'/', b'')) and not ref['malformed']:
+                return ('listing-parent-link', 'the parent row is present exactly when the request path is not the site root')
         elif not marks and not ref['malformed']:
             return ('serves-unknown-content', '200 reply that is neither a listing nor a marker file')
+        elif not ref['malformed'] and len(marks) == 1:
+            # Content-Type by the extension of the file name that was opened (the link name when check_symlink is off, the real name
+            # when it is on); the table of the sandbox: .txt, .html, everything else application/octet-stream
+            opened = full.rstrip(b'/') if os.path.isfile(full) else full.rstrip(b'/') + b'/' + cfg['index']
+            if cfg['check']:
+                opened = os.path.realpath(opened)
+            base = opened.rsplit(b'/', 1)[-1]
+            ext = base[base.rfind(b'.'):] if b'.' in base else b''
+            want = MIME.get(ext, b'application/octet-stream')
+            got = r['headers'].get(b'content-type', b'')
+            if got != want:
+                return ('wrong-content-type', 'file %r served as %r, its extension %r selects %r' % (opened, got, ext, want))
+    if st == 302 and not ref['malformed']:
+        loc = r['location']
+        if loc is None:
+            return ('redirect-without-location', '302 reply without a Location header')
+        if not dirlike(full) or (cfg['check'] and not inside(real, root)):
+            return ('redirect-for-non-directory', 'redirect for a request that does not denote a directory inside the root in force')
+        ip = full.rstrip(b'/') + b'/' + cfg['index']
+        have_index = os.path.isfile(ip) and (not cfg['check'] or inside(os.path.realpath(ip), root))
+        if not (have_index or cfg['listing']):
+            return ('redirect-unexpected', 'redirect although the directory has no index file and listing is off')
+        if ref['decoded'].endswith(b'/'):
+            return ('redirect-unexpected', 'redirect although the request path already ends with a slash')
+        # what the Location says (the property names "a redirect" as one of the four replies): one well-formed header line that
+        # keeps the client on this site and leads it to the same directory - no tolerance (the echo of the decoded request path
+        # was repaired by a6ff7cd; each of the three old failure classes is a violation again)
+        if re.search(rb'[\x00-\x1f\x7f]', loc):
+            return ('redirect-splits-response', 'the Location value contains CR/LF or another control byte: what follows is read by the '
+                    'client as further header lines / body chosen by the requester (%r)' % loc[:120])
+        if not loc.startswith(b'/') or loc.startswith(b'//') or loc.startswith(b'/\\'):
+            return ('redirect-off-site', 'the Location value %r is not a path of this site (network-path reference or relative): the client leaves the site' % loc[:120])
+        # independent expectation: textbook resolution of the decoded path, every component percent-encoded (RFC 3986 unreserved
+        # bytes stay), a slash after each component
+        want = b'/' + b''.join(py_urlencode(x) + b'/' for x in ref_resolve(ref['decoded']))
+        back = reference(cfg, loc)
+        if loc != want or back['full'] != full or back['root'] != root:
+            return ('redirect-location-not-encoded', 'the Location value %r is not the percent-encoded normal form %r of the request path '
+                    '(followed by a client it must denote the directory %r)' % (loc[:160], want[:160], full))
     if st == 404 and allowed and not ref['malformed'] and os.path.isfile(full):
         return ('misses-existing-file', 'the request denotes the servable file %r but the reply is 404' % full)
     return None
@@ -595,13 +926,16 @@ def run(ctx):
         'tools/cxx2v.py + clang JSON AST (is_directory_separator regenerated from src/internal_file_server.cpp)',
         'extraction: ExtrOcamlBasic only, OCaml 4.13.1',
         'hand model of normalize_path / is_file_prefix / check_in_document_root / main / list_dir and of the http_api.cpp path pipeline (coq/C13/Defs.v), tied by correspondence',
-        'POSIX name-space model fs_realpath/fs_mode/fs_dir_entries in coq/C13/Defs.v (the model driver only; theorems quantify over the OS functions)',
+        'POSIX name-space model fs_realpath/fs_mode/fs_dir_entries in coq/C13/Defs.v incl. the 40-link limit (model driver, and the subject of realpath_model_idempotent / model_served_file_under_real_root; the containment theorems quantify over the OS functions)',
+        'coq/C13/PageDefs.v: the string literals of list_dir copied as byte lists (tied by whole-page correspondence); date/size/version are parameters',
         'harness/C13_fileserver.cpp, ocaml/C13_driver.ml, checks/C13.py (sandbox builder, generators, reply parser, reference resolution using os.path.realpath)']
     ctx.assumptions = [
         'realpath contract (hypothesis of contained_real): a successful canonicalize_file_name/realpath returns a slash-rooted path without empty, dot, dot-dot components that names the same object with every symbolic link resolved',
         'PATH_INFO reaches file_server::main as a C string (no NUL): true for the http, scgi and fastcgi front ends; theorems about main take nonul file_name as a premise, path_info_nonul discharges it for the HTTP pipeline',
         'document root and alias targets are outputs of canonical() (constructor), alias URLs passed the constructor checks',
-        'no concurrent modification of the served tree between realpath/stat and open (TOCTOU out of scope)']
+        'no concurrent modification of the served tree between realpath/stat and open (TOCTOU out of scope)',
+        'listing page theorem: directory entry names are byte strings (< 256); the formatted date, size and package version carry no < > quote byte',
+        'model_served_file_under_real_root: roots in force are outputs of the model realpath (what the constructor stores)']
     exe, err = vlib.build_harness('C13_fileserver', ['C13_fileserver.cpp'])
     if not exe:
         ctx.broke('harness build failed', err)
@@ -623,7 +957,12 @@ def run(ctx):
             'length <= 8 over {a . /} and length <= 5 over {a . / NUL b} through normalize_path; thorough tier: all segment lists of length '
             '<= 2 over every name of the sandbox and length 3 over a 19-name core set, for each configuration (quick tier: a seeded 15 % / '
             '8 % of them). Random (seeded): decorated paths to every node inside and outside, segment soup, percent-encoded separators '
-            'and dots, %00 truncation, query strings, malformed escapes, non-UTF-8 bytes, long targets. Non-trivial: normalize cases that '
+            'and dots, %00 truncation, query strings, malformed escapes, non-UTF-8 bytes, long targets. Listing pages are compared as whole '
+            'pages (date, size, version replaced by tokens, rows sorted) and read by a strict page-grammar parser in the oracle; a directory of '
+            'names made of markup, entities, URL syntax, control bytes, line ends and ill-formed UTF-8 is listed and every node of it requested '
+            'in 3 encodings per configuration; redirect probes (CR LF, quotes, ?, #, %, +, //host/.., /%2fhost/.., /\\host/..); all token '
+            'strings of length <= 2 (thorough: <= 4) over {/ . %2e %2f %25 %00 a 2e 2f %252e %5c} between real prefixes and tails, check_symlink '
+            'on and off; symlink chains of 40/41/42 links, links with trailing slash, dangling chains, links through alias targets. Non-trivial: normalize cases that '
             'contain a dot component or a double slash; requests whose reply is not 404. distinct = distinct case lines.')
         ctx.coverage['exhaustive'] = False
         ctx.coverage['exhaustive_parts'] = ['normalize_path: all strings of length 0..8 over {a . /} (9841)', 'length 1..5 over {a . / NUL b} (3905)']
